@@ -278,6 +278,11 @@ def axis_events(chk, prefix='C06', stride=3):
     quick = chk.tier == 'quick'
     batch = obs.Batch('ObsC06')
     nffts = list(range(1, 131 if quick else 521)) + [250, 256, 500, 512, 1000, 1001, 1023, 1024]
+    # objects built now and queried only after all the others below have been built and used (objects alive together)
+    early = []
+    for n, samp, dt in ((7, 3.0, 'real'), (12, 0.1, 'complex'), (33, 44100.0, 'real'), (64, 1.0, 'complex')):
+        data = np.arange(1.0, 4.0) + (1j if dt == 'complex' else 0)
+        early.append((n, samp, dt, Spectrum(data, NFFT=n, sampling=samp)))
     for n in nffts:
         for si, samp in enumerate(AXIS_SAMPLINGS):
             if quick and n > 16 and (n + si) % stride:
@@ -306,19 +311,88 @@ def axis_events(chk, prefix='C06', stride=3):
                             ok2, _ = call_guard(setattr, p, 'sides', sides)
                         ok3, g = call_guard(p.frequencies)
                         ev['noarg_same'] = bool(ok2 and ok3 and np.array_equal(np.asarray(g, dtype=float), f))
+                        # a stored vector converted at this NFFT: length of every layout, power, and the way back
+                        ev['conv_ok'] = True
+                        if sides == 'twosided':
+                            def conv():
+                                q = Spectrum(data, NFFT=n, sampling=samp)
+                                ln0 = len(bins('onesided' if dt == 'real' else 'twosided', n))
+                                v0 = 1.0 + np.arange(ln0) % 7
+                                q.psd = v0.copy()
+                                t = np.asarray(q.get_converted_psd('twosided'), dtype=float)
+                                c = np.asarray(q.get_converted_psd('centerdc'), dtype=float)
+                                q.sides = 'centerdc'
+                                q.sides = 'onesided' if dt == 'real' else 'twosided'
+                                back = np.asarray(q.psd, dtype=float)
+                                return bool(len(t) == n and len(c) == n and abs(t.sum() - v0.sum()) <= 1e-9 * v0.sum()
+                                            and abs(c.sum() - v0.sum()) <= 1e-9 * v0.sum() and back.shape == v0.shape and np.allclose(back, v0, rtol=1e-12, atol=0))
+                            okc, good = call_guard(conv)
+                            ev['conv_ok'] = bool(okc and good)
                     else:
-                        ev.update(len=0, first=0, last=0, dev=0, noarg_same=False)
+                        ev.update(len=0, first=0, last=0, dev=0, noarg_same=False, conv_ok=True)
                     batch.add(ev)
+    for n, samp, dt, p in early:
+        for sides in ('onesided', 'twosided', 'centerdc'):
+            if sides == 'onesided' and dt == 'complex':
+                continue
+            ev = {'ev': 'axis', 'nfft': n, 'dt': dt, 'sides': sides, 'samp': repr(samp), 'late': True}
+            ok, f = call_guard(p.frequencies, sides)
+            ev['raised'] = not ok
+            if ok:
+                f = np.asarray(f, dtype=float)
+                eb = np.array(bins(sides, n), dtype=float)
+                ev.update(len=int(len(f)), first=int(round(f[0] * n / samp)) if len(f) else 0, last=int(round(f[-1] * n / samp)) if len(f) else 0,
+                          dev=obs.q(np.max(np.abs(f - eb * samp / n)) / samp, 1e-12) if len(f) == len(eb) else 0, noarg_same=True, conv_ok=True)
+            else:
+                ev.update(len=0, first=0, last=0, dev=0, noarg_same=False, conv_ok=True)
+            batch.add(ev)
     obs.validate(chk, batch, 'axis-large-nfft', lambda ev, cl: '%s:OBS:%s:%s:%s' % (prefix, cl, ev['sides'], parity(ev['nfft'])),
                  lambda ev, cl: 'frequencies(%s) of a %s object with NFFT=%d, sampling=%s: clause "%s" fails: %s'
                  % (ev['sides'], ev['dt'], ev['nfft'], ev['samp'], cl, ev))
     chk.sample('axis-event', batch.events[7], 1)
 
 
+def sides_before_estimate(chk):
+    """`sides` assigned on an estimator object whose PSD is not (or no longer) up to date: the PSD read afterwards is
+    the estimate in the requested layout - as long as frequencies(), equal to the direct conversion of the default
+    estimate (the conversion clause of C06 on the path where the vector is produced after the assignment)."""
+    from spectrum import Periodogram, pburg
+    rng = np.random.RandomState(660 + chk.seed)
+    for cls, mk in (('Periodogram', lambda x, n: Periodogram(x, NFFT=n, window='hann', scale_by_freq=False)),
+                    ('pburg', lambda x, n: pburg(x, 3, NFFT=n, scale_by_freq=False))):
+        for n in (16, 17):
+            x = rng.randn(16)
+            for s in ('twosided', 'centerdc'):
+                for how in ('before-first-estimate', 'after-parameter-change'):
+                    def scenario():
+                        p = mk(x.copy(), n)
+                        if how == 'after-parameter-change':
+                            p.psd
+                            p.sampling = 2.0
+                            p.sampling = 1.0
+                        p.sides = s
+                        v = np.array(p.psd)
+                        return v, len(p.frequencies()), p.sides
+                    ok, res = call_guard(scenario)
+                    ok2, ref = call_guard(lambda: np.array(mk(x.copy(), n).get_converted_psd(s)))
+                    chk.evaluations += 1
+                    case = {'cls': cls, 'NFFT': n, 'sides': s, 'how': how, 'x': x}
+                    if not (ok and ok2):
+                        chk.violation('C06:sides-on-stale-object:%s:raises' % cls, 'assigning sides=%s %s raises %r' % (s, how, res if not ok else ref), case)
+                        continue
+                    v, lf, sd = res
+                    if sd == s and (len(v) != lf or cmp_vec(v, ref, tol=1e-10) is not None):
+                        chk.violation('C06:sides-on-stale-object:%s:%s' % (cls, parity(n)),
+                                      '%s: sides=%s assigned %s, then psd has %d values for %d frequencies / differs from the direct conversion'
+                                      % (cls, s, how, len(v), lf), dict(case, observed=v, expect=ref))
+    chk.count('sides-on-stale-object', 'scenarios', 16)
+
+
 def run(chk):
     quick = chk.tier == 'quick'
     axis_proofs(chk)
     axis_events(chk)
+    sides_before_estimate(chk)
     rng = np.random.RandomState(600 + chk.seed)
     # (ToolsIdx.tla - cshift / twosided / _swapsides / nextpow2 - is replayed by X06: not part of C06)
     core.run_jobs(chk, [
